@@ -156,7 +156,7 @@ func c17Row(cs c17Case) (req, impl, verdict string) {
 	}
 	if c17Hazard != "" {
 		// outside the model's faithful domain: the oracle still judges the real output, the model is not asked
-		return "-", "hazard-" + c17Hazard, verdict
+		return "-", "hazard-" + c17Hazard + " " + impl, verdict
 	}
 	return req, impl, verdict
 }
